@@ -1615,6 +1615,13 @@ M('C16', 'LanczosGroundState stores shifted-back Ritz values and run() removes t
   "        if self.E_shift is not None:\n            E0 = E0 - self.E_shift\n", "        if self.E_shift is not None:\n            E0 = E0 - self.E_shift\n            self.Es = self.Es - self.E_shift\n",
   'KRYLOV-eshift')
 
+M('C05', 'twin: _eigvals_worker unpacks the row index of the block', NPC,
+  "        qi = qindices[0]  # both `a` and `resv` are sorted and share the same qindices\n        resw[a.legs[0].get_slice(qi)] = rw  # replace eigenvalues\n    return resw", "        qi, _ = qindices\n        resw[a.legs[0].get_slice(qi)] = rw  # replace eigenvalues\n    return resw",
+  None, expect='silent')
+M('C05', '_eigvals_worker slices the eigenvalues on the second leg', NPC,
+  "        qi = qindices[0]  # both `a` and `resv` are sorted and share the same qindices\n        resw[a.legs[0].get_slice(qi)] = rw  # replace eigenvalues\n    return resw", "        qi = qindices[1]\n        resw[a.legs[1].get_slice(qi)] = rw  # replace eigenvalues\n    return resw",
+  'FACT-eig-slot')
+
 # ---------------------------------------------------------------- C16 / C19
 M('C16', 'GMRES restart: relative residual norm used for normalisation (round-3 seed b)', KRY,
   """        self.total_error.append([npc.norm(self.rs[-1]) / self.b_norm])
